@@ -129,6 +129,14 @@ def gen_cases(rng, tier):
             xs = sorted(rng.uniform(0.05, 0.95) * w for _ in range(4))
             ops = [0, f2b(xs[0]), f2b(-a), 3, f2b(xs[1]), f2b(-b), f2b(xs[2]), f2b(b), f2b(xs[3]), f2b(a), 1, f2b(xs[3]), f2b(h * 0.8), 1, f2b(xs[0]), f2b(h * 0.8), 4]
         cases.append(("fill_px", [i % 2, 0, rng.choice([0, 0, 1]), w, h, 0, w, 750, 0] + list(IDENT) + ops))
+    # tiny paths magnified by the draw transform (extent below 1/4096 units, scale 1e4 .. 1e6): what counts is the size on the device
+    for i in range(24 if tier == "quick" else 240):
+        w, h = rng.choice([(24, 24), (40, 30)])
+        sc = rng.choice([1.0e4, 5.0e4, 1.0e5, 1.0e6])
+        n = rng.randint(3, 5)
+        pts = [(rng.uniform(2, w - 2) / sc, rng.uniform(2, h - 2) / sc) for _ in range(n)]
+        ops = [0, f2b(pts[0][0]), f2b(pts[0][1])] + [v for q_ in pts[1:] for v in (1, f2b(q_[0]), f2b(q_[1]))] + [4]
+        cases.append(("fill_px", [i % 2, 0, rng.choice([0, 0, 2]) if n == 4 and False else 0, w, h, 0, w, 250, 0] + [f2b(sc), 0, 0, f2b(sc), 0, 0] + ops))
     # curves that START or END exactly on a border of the clip and bulge into the pixmap, the contour closed outside the pixmap
     # (so the edge clipper is used): touching a border is not crossing it
     for i in range(64 if tier == "quick" else 800):
